@@ -18,17 +18,28 @@ META = {
             "configurations; a successful build leaves, for every reachable rule, exactly the output of a build "
             "from an empty out/, which also succeeds; a rebuild with nothing changed executes nothing and changes "
             "nothing; a rule executes iff its current digest has no valid cache entry, a file set is re-executed "
-            "iff its digest changed and unchanged rules are not rebuilt; a failed rule has no cache entry.  The "
+            "iff its digest changed and unchanged rules are not rebuilt; a failed rule has no cache entry.  "
+            "The per-Build memo is explicit state of the model (Caco/BuildSession.v: a Build call entered with a "
+            "memo, the deferred memo write on failing paths, a memo policy): with the memo made inside Build - "
+            "which is decided on every run from where the translator finds the buildContext literal in the "
+            "current source - every history of Build calls on ONE long-lived Builder (or on Builders replaced "
+            "anywhere) goes through the same worlds and executions as the histories of the theorems, so "
+            "incremental = clean, the no-op rebuild and 'a failed rule is not remembered' hold for it; for a "
+            "memo kept across calls the statement is refuted (subset, edit, other subset: stale lists; fail, "
+            "again: 'succeeds').  The "
             "model is tied to the code on every run by replaying generated histories against the real "
-            "caco3.Builder (result, executed rules and the whole out/ tree compared inside Coq after every build), "
+            "caco3.Builder - half of them with a new Builder per build, half on one long-lived Builder per "
+            "configuration - (result, executed rules and the whole out/ tree compared inside Coq after every build), "
             "by statement skeletons and struct layouts regenerated from the source, and by the "
             "implementation-only oracle incremental out/ == from-scratch out/.",
-    "note": "Trusted: Coq kernel + vm_compute; harness/cmd/c10 + checks/c10.py; SHA-256 modelled as the structured "
+    "note": "Trusted: Coq kernel + vm_compute; harness/cmd/c10 + checks/c10.py; gen/caco_build.go (skeletons, "
+            "layouts, creation sites of buildContext); SHA-256 modelled as the structured "
             "value hashed (collision-freeness); an output write always leaves a new (size, mtime, mode) "
-            "(strictly increasing stamp); 'edit => new mtime, size or mode' as in the property's wording; cache "
-            "expiry (7 days) not modelled; docker-backed rules, Ignore patterns, symlinked sources and file sets "
-            "listing output files are outside the model; sqlite KV, os.Lstat, JSON encoding modelled not "
-            "verified; no axioms.",
+            "(strictly increasing stamp); 'edit => new mtime, size or mode' as in the property's wording; "
+            "docker-backed rules, symlinked sources and file sets "
+            "listing output files are outside the theorems' scope; a WORKSPACE.caco3 edit is seen by a new Builder "
+            "only (ReadWorkspace memoises by design; outside the property's operation list); sqlite KV, os.Lstat, "
+            "JSON encoding modelled not verified; no axioms.",
     "technique": "Coq proof (invariant over histories, digest-determines-output induction over the loaded graph, "
                  "DFS = fold over post-order) + vm_compute replay of histories against the real Builder + "
                  "from-scratch differential oracle",
@@ -36,7 +47,7 @@ META = {
 
 MODEL = ["theories/Caco/BuildCorr.vo"]
 PROOFS = ["theories/Props/C10.vo"]
-STATEMENT_FILES = ["theories/Props/C10.v", "theories/Caco/BuildGen.v"]
+STATEMENT_FILES = ["theories/Props/C10.v", "theories/Caco/BuildGen.v", "theories/Caco/BuildSessionGen.v"]
 
 
 # ------------------------------------------------------------ case -> Coq
@@ -115,6 +126,10 @@ def op_coq(op):
         return "HOp (OTouchOut %s)" % coq_str(op["out"])
     if k == "advance":
         return "HOp (OAdvance %d)" % op["dt"]
+    if k == "newbuilder":
+        # The proved model keeps nothing from one Build call to the next (Caco/BuildSession.v:
+        # session_per_build_eq_run), so renewing the Builder is the identity on the world.
+        return "HOp (OAdvance 0)"
     return "HBuild %s %s (%s)" % ("true" if op.get("always") else "false", cl(op["targets"]), obs_coq(op["obs"]))
 
 
@@ -196,7 +211,11 @@ def oracle(c):
     prev = None          # (index, op) of the previous build if nothing happened since
     prev2 = None         # (build op, src op) for the minimal-rebuild check
     last_build = None
+    fresh_edits = []     # sources given a never-seen mtime since the last build (any targets)
+    newest = {s["name"]: s["stat"]["mtime"] for s in c["src"]}   # newest mtime a source ever had
     for i, op in enumerate(c["ops"]):
+        if op["k"] == "newbuilder":
+            continue     # a new Builder changes nothing about what has to happen
         if op["k"] == "rules":
             rules = op["rules"]
         if op["k"] == "src":
@@ -210,6 +229,13 @@ def oracle(c):
                 prev2 = (last_build, op)
             else:
                 prev2 = None
+            if op["k"] == "src":
+                if op["name"] in fresh_edits:
+                    fresh_edits.remove(op["name"])
+                st = op.get("stat")
+                if st is not None and st["mtime"] > newest.get(op["name"], -1):
+                    newest[op["name"]] = st["mtime"]
+                    fresh_edits.append(op["name"])
             prev = None
             continue
         o = op["obs"]
@@ -270,6 +296,22 @@ def oracle(c):
             if missing:
                 yield ("impl:dependent-not-rebuilt",
                        "after a change of %s, dependent file sets %s were not re-executed" % (f, missing), i)
+        # (3') a source got a modification time no build has seen (edit / touch): every file set that
+        # depends on it and is reachable from THIS build's targets (= executed by the from-scratch
+        # build) has a new action digest and must execute, whichever targets were built before
+        if o["ok"] and cl_ is not None and cl_["ok"] and fresh_edits:
+            for f in fresh_edits:
+                if f not in srcs:
+                    continue
+                dep = dependents(rules, srcs, f)
+                kinds = {r["name"]: r["k"] for r in rules}
+                missing = sorted(r for r in dep if kinds.get(r) == "file_set" and r in clean_exec(cl_)
+                                 and r not in o["exec"])
+                if missing:
+                    yield ("impl:dependent-not-rebuilt",
+                           "after a change of %s (new modification time), the dependent file sets %s, reachable "
+                           "from the targets %s, were not re-executed" % (f, missing, op["targets"]), i)
+        fresh_edits = []
         prev = (i, op)
         prev2 = None
         last_build = op
@@ -336,7 +378,10 @@ def brief(c, upto=None):
                 d["from_scratch"] = {"ok": o["clean"]["ok"], "exec": o["clean"]["exec"],
                                      "outs": {f["name"]: norm_entries(f) for f in o["clean"]["outs"]}}
         ops.append(d)
-    return {"stream": c["stream"], "i": c["i"], "pkgs": c["pkgs"], "rules": c["rules"],
+    return {"stream": c["stream"], "i": c["i"], "builder": c.get("builder", "fresh"),
+            "builder_note": "one = all Build calls of the history on one long-lived caco3.Builder per configuration "
+                            "(renewed only at 'newbuilder'); fresh = a new Builder for every build",
+            "pkgs": c["pkgs"], "rules": c["rules"],
             "src": [{"name": s["name"], "stat": s["stat"]} for s in c["src"]], "ops": ops}
 
 
@@ -363,12 +408,13 @@ def run(ck):
     nbuilds = 0
     stale = 0
     for c in cases:
-        key = json.dumps([c["rules"], [(s["name"], s["stat"]) for s in c["src"]],
+        key = json.dumps([c.get("builder"), c["rules"], [(s["name"], s["stat"]) for s in c["src"]],
                           [{k: v for k, v in op.items() if k != "obs"} for op in c["ops"]]], sort_keys=True)
         builds = [op for op in c["ops"] if op["k"] == "build" and op.get("obs")]
         nbuilds += len(builds)
         trivial = not any(op["obs"]["exec"] for op in builds)
         ck.count(c["stream"], key=key, trivial=trivial)
+        hist["builder:" + c.get("builder", "fresh")] = hist.get("builder:" + c.get("builder", "fresh"), 0) + 1
         for op in c["ops"]:
             k = op["k"] if op["k"] == "build" else "%s:%s" % (op["k"], op.get("what"))
             if op["k"] == "build" and op.get("obs"):
@@ -455,7 +501,10 @@ def run(ck):
         trusted=["Coq 8.16.1 kernel + vm_compute", "harness/cmd/c10 (workspace writer, log and out/ projection)",
                  "checks/c10.py (history -> Coq, differential oracle)",
                  "modelled not verified: sqlite KV cache, os.Lstat/Chtimes, encoding/json, filepath.Glob/WalkDir"],
-        rule="fixed corpus (edit and edit-back to the same stat, chmod/touch/same-size edit, files entering and "
+        rule="every history either with a new Builder per build or on one long-lived Builder per configuration "
+             "(chosen per history; fixed corpus in both styles + one-Builder corpus: subset/edit/other subset, "
+             "fail/again, diamond arms, outputs deleted between different targets, BUILD edits, renewed Builder); "
+             "fixed corpus (edit and edit-back to the same stat, chmod/touch/same-size edit, files entering and "
              "leaving a selection, deleted and overwritten outputs, a failing rule injected/repaired/injected "
              "again, rule reorder/kind change/removal, target subsets) + seeded random histories over 1-4 "
              "packages, 2-8 file_set/bundle rules in random DAGs, <=12 (quick) / <=40 (thorough) operations; after "
